@@ -64,6 +64,7 @@ var universe = []string{
 	"http://g.example/m;v=1/n,o?s=1;t=2", // sub-delimiters a URL carries unescaped: ';' is not a legal byte of a cookie value
 	"http://k;l@g.example:81/p;q",
 	"http://h.example:8080/app?filter=\"eu\"&dir=C:\\srv&dc=z\u00fcrich", // a query carries '"', '\\' and non-ASCII bytes verbatim: no legal bytes of a cookie value
+	"https://a.example:8080/app", // entry 0 over TLS: the scheme alone tells the two servers apart
 }
 
 var salts = map[int64]string{1: "s1-salt", 2: "other-salt!", 3: "foreign-salt"}
